@@ -1,7 +1,7 @@
 (* Correspondence for C04: run Model/Transforms.v on the inputs given to the implementation (plus the recorded
    oracle answers) and compare with the implementation's outputs: bit-exact on Z, toleranced on Q. *)
 From Coq Require Import List Arith ZArith QArith Qabs Qround Bool.
-From TLV Require Import Base.Shape Base.PyList Base.Tensor Base.Ops Model.Transforms Model.TransformsApi Model.TransformsHeap Model.TransformsCplx Model.TransformsRT Model.TransformsTkObj Corr.Common.
+From TLV Require Import Base.Shape Base.PyList Base.Tensor Base.Ops Model.Transforms Model.TransformsApi Model.TransformsHeap Model.TransformsCplx Model.TransformsRT Model.TransformsTkObj Model.TransformsPfHeap Corr.Common.
 Import ListNotations.
 
 Fixpoint list_eqb {A} (eqb : A -> A -> bool) (a b : list A) : bool :=
@@ -128,6 +128,10 @@ Definition gt_eqb (a b : tensor (Z * Z)) : bool := nat_list_eqb (shape a) (shape
 Definition gts_eqb : list (tensor (Z * Z)) -> list (tensor (Z * Z)) -> bool := list_eqb gt_eqb.
 Definition g_dense (ring : bool) (cores : list (tensor (Z * Z))) : tensor (Z * Z) :=
   if ring then tr_to_tensor Gops cores else tt_to_tensor Gops cores.
+Definition gcp_dense_eqb (a b : list (Z * Z) * list (mat (Z * Z))) : bool :=
+  gt_eqb (cp_to_tensor Gops (fst a) (snd a)) (cp_to_tensor Gops (fst b) (snd b)).
+Definition gtk_dense_eqb (a b : tensor (Z * Z) * list (mat (Z * Z))) : bool :=
+  Nat.eqb (length (snd a)) (length (snd b)) && gt_eqb (tucker_to_tensor Gops (fst a) (snd a)) (tucker_to_tensor Gops (fst b) (snd b)).
 Definition order3b {F} (cores : list (tensor F)) : bool := forallb (fun G => Nat.eqb (length (shape G)) 3) cores.
 
 (* TuckerTensor objects on the heap (Model/TransformsTkObj.v): the harness's object is cell 0 of the heap built from its core, arrays and list *)
@@ -193,6 +197,12 @@ Inductive body :=
 | QTkNormBc (tape : list (list Q)) (core : tensor Q) (fs : list (mat Q)) (expected : res (list nat * list nat * (tensor Q * list (mat Q))))
 | GPad (ring : bool) (cores : list (tensor (Z * Z))) (npad : nat) (pb : bool) (expected : res (list (tensor (Z * Z))))
 | GTTDense (ring : bool) (cores : list (tensor (Z * Z))) (expected : tensor (Z * Z))
+| GModeDot (w : list (Z * Z)) (fs : list (mat (Z * Z))) (x : operand (F:=Z * Z)) (mode : Z) (keep_dim : bool)
+           (expected : res (list (Z * Z) * list (mat (Z * Z))))
+| GTkDot (core : tensor (Z * Z)) (fs : list (mat (Z * Z))) (x : operand (F:=Z * Z)) (mode : Z) (keep_dim : bool)
+         (expected : res (tensor (Z * Z) * list (mat (Z * Z))))
+| ZDecompHeap (arrs : list (mat Z)) (ls : list nat) (Ls : list (option (mat Z))) (expected : res (list (mat Z)))
+              (after : list (mat Z)) (shared : list bool) (list_same : bool)
 | QRoundTrip (slices : list (mat Q)) (max_rank : option nat) (tapes : list (mat Q * list Q * mat Q)) (full : list bool)
              (w : list Q) (A B C : mat Q) (Qs : list (mat Q)) (expected : res (list (mat Q)))
 | ZTkObjDot (core : tensor Z) (arrs : list (mat Z)) (ls : list nat) (copy : bool) (x : operand (F:=Z)) (mode : nat) (keep_dim : bool)
@@ -365,6 +375,24 @@ Definition agree_body (b : body) : bool :=
       | Err => true
       end
   | GTTDense ring cores e => gt_eqb (g_dense ring cores) e
+  | GModeDot w fs x m kd e => res_eqb gcp_dense_eqb (cp_mode_dot_z Gops w fs x m kd) e
+  | GTkDot core fs x m kd e => res_eqb gtk_dense_eqb (tucker_mode_dot_z Gops core fs x m kd) e
+  | ZDecompHeap arrs ls Ls e after shared same =>
+      (* svd_decompress on the heap: the projections read back as the pure answer; the caller's arrays and projection list are untouched;
+         an entry WITH a loading is a fresh array (entries without one may or may not share: not part of the property) *)
+      let ph0 := mk_pheap arrs [ls] in
+      match svd_decompress_h Zops ph0 0%nat Ls, e with
+      | Ok (ph', pl'), Ok e' =>
+          list_eqb zmat_eqb (pread ph' pl') e' &&
+          list_eqb zmat_eqb (firstn (length arrs) (p_arr ph')) after && Bool.eqb (nat_list_eqb (plst ph' 0%nat) ls) same &&
+          Nat.eqb (length shared) (length ls) &&
+          forallb (fun k => match nth k Ls None with
+                            | Some _ => Bool.eqb (nth k (plst ph' pl') 0%nat <? length arrs) (nth k shared true)
+                            | None => true
+                            end) (seq 0%nat (length ls))
+      | Err, Err => true
+      | _, _ => false
+      end
   | QRoundTrip slices mr tapes full w A B C Qs e =>
       (* slice i of the decompressed tensor (the model's and the implementation's) is slice i of the data *)
       svds_okb full slices tapes &&
